@@ -216,6 +216,12 @@ def run(ctx):
         res.add(Finding('C06', 'C06.e', 'R-AGREE', cl.file, cl.qualname, kcalls[1].lineno, norm(kcalls[1])[:160],
                         'a fallback key is not built with the same capture configuration / call arguments as the main key'))
 
+    from . import c02
+    oks, whys = c02.reader_scan(roles.reader)
+    ce.instance('replay looks the candidate keys up in their own order (main key before fallbacks), not in recording order', roles.reader.qualname, oks, detail=whys)
+    if not oks:
+        res.add(Finding('C06', 'C06.e', 'R-AGREE', roles.reader.file, roles.reader.qualname, roles.reader.node.lineno, 'reader key scan',
+                        whys + ': a call whose own key is recorded can be answered with the value recorded under another alias'))
     # ---------------- C06.f library-extended
     cand = sorted(glob.glob('/venv/lib/python*/site-packages/jsonpickle/pickler.py'))
     if not cand:
